@@ -150,8 +150,9 @@ fn run_case<G: AffineRepr>(env: &Env<G>, c: &Case) -> CaseOut {
                 if is_harness_loc(&loc) {
                     o.inconclusive = Some(format!("harness panic at {}: {}", loc, msg));
                 } else {
-                    o.count(&format!("[{}] PANIC at {}", ob.class, loc), 1);
-                    o.violate(format!("panic@{}", loc), format!("verification panicked at {} ({}) on object '{}' ({})", loc, msg, ob.name, ob.class), json!({"program": ob.prog, "object": ob.name, "proof_hex": crate::sc::hex(&ob.m.to_bytes())}));
+                    // a panic is neither acceptance nor rejection: C08's subject, unjudgeable here
+                    o.count(&format!("[{}] PANIC at {} (see C08)", ob.class, loc), 1);
+                    o.inconclusive = Some(format!("verification panicked at {} ({}) on object '{}'; see C08", loc, msg, ob.name));
                 }
                 continue;
             }
